@@ -88,6 +88,11 @@ unsafe impl<T: IoBufMut, S: AsFd> OpCode for Read<T, S> {
     type Control = ();
 
     fn pre_submit(&mut self, _: &mut Self::Control) -> io::Result<Decision> {
+        // A zero-length read never blocks: the OS answers at once, readable or not.
+        if self.buffer.as_uninit().is_empty() {
+            let (init, _) = read(self.fd.as_fd(), self.buffer.as_uninit())?;
+            return Ok(Decision::Completed(init.len()));
+        }
         Ok(Decision::wait_readable(self.fd.as_fd().as_raw_fd()))
     }
 
@@ -107,7 +112,12 @@ unsafe impl<T: IoVectoredBufMut, S: AsFd> OpCode for ReadVectored<T, S> {
         ctrl.slices = self.buffer.sys_slices_mut();
     }
 
-    fn pre_submit(&mut self, _: &mut Self::Control) -> io::Result<Decision> {
+    fn pre_submit(&mut self, control: &mut Self::Control) -> io::Result<Decision> {
+        // A zero-length read never blocks: the OS answers at once, readable or not.
+        if control.slices.iter().all(|s| s.len() == 0) {
+            let n = readv(self.fd.as_fd(), control.io_slices_mut())?;
+            return Ok(Decision::Completed(n));
+        }
         Ok(Decision::wait_readable(self.fd.as_fd().as_raw_fd()))
     }
 
@@ -124,6 +134,11 @@ unsafe impl<T: IoBuf, S: AsFd> OpCode for Write<T, S> {
     type Control = ();
 
     fn pre_submit(&mut self, _: &mut Self::Control) -> io::Result<Decision> {
+        // A zero-length write never blocks: the OS answers at once, writable or not.
+        if self.buffer.as_init().is_empty() {
+            let n = write(self.fd.as_fd(), self.buffer.as_init())?;
+            return Ok(Decision::Completed(n));
+        }
         Ok(Decision::wait_writable(self.fd.as_fd().as_raw_fd()))
     }
 
@@ -143,7 +158,12 @@ unsafe impl<T: IoVectoredBuf, S: AsFd> OpCode for WriteVectored<T, S> {
         ctrl.slices = self.buffer.sys_slices();
     }
 
-    fn pre_submit(&mut self, _: &mut Self::Control) -> io::Result<Decision> {
+    fn pre_submit(&mut self, control: &mut Self::Control) -> io::Result<Decision> {
+        // A zero-length write never blocks: the OS answers at once, writable or not.
+        if control.slices.iter().all(|s| s.len() == 0) {
+            let n = writev(self.fd.as_fd(), control.io_slices())?;
+            return Ok(Decision::Completed(n));
+        }
         Ok(Decision::wait_writable(self.fd.as_fd().as_raw_fd()))
     }
 
